@@ -433,8 +433,54 @@ def declared_script_section(ctx):
                     ctx.spec_failure(dict(case, script=t, pair=[a, c]), "under %s the pair (%s, %s) of script-neutral glyphs is adjusted by %r, the UFO says %r" % (t, a, c, got, v))
 
 
+F41_SIG = "mark-known-only-from-anchors-kerned"
+
+
+def mark_kern_section(ctx):
+    """a kerning pair against a MARK, the marks being declared (a) in public.openTypeCategories, (b) there AND next to a
+    hand-written GDEF table that holds ligature carets only (no GlyphClassDef), (c) in the GDEF table's GlyphClassDef, (d) nowhere
+    (the compiled GDEF then infers them from the mark feature: known finding F41): the pair's value is applied, with both writers"""
+    import ufo2ft
+    from fontTools.ttLib import TTFont
+    from ufo2ft.featureWriters.kernFeatureWriter import KernFeatureWriter
+    from ufo2ft.featureWriters.kernFeatureWriter2 import KernFeatureWriter as KernFeatureWriter2
+    from ufo2ft.featureWriters import MarkFeatureWriter, GdefFeatureWriter, CursFeatureWriter
+    tri = [[(Fr(0), Fr(0), "line"), (Fr(50), Fr(0), "line"), (Fr(50), Fr(50), "line")]]
+    CATS = {"acutecomb": "mark", "A": "base", "V": "base", "f_i": "ligature"}
+    VARIANTS = [("categories", CATS, ""), ("categories + GDEF table with carets only", CATS, "table GDEF {\n    LigatureCaretByPos f_i 300;\n} GDEF;\n"),
+                ("GDEF table with classes", None, "table GDEF {\n    GlyphClassDef [A V], [f_i], [acutecomb], ;\n} GDEF;\n"),
+                ("declared nowhere", None, "")]
+    for i in range(ctx.budget(2 * len(VARIANTS), 4 * len(VARIANTS))):
+        label, cats, fea = VARIANTS[i % len(VARIANTS)]
+        wname, wcls = [("kernFeatureWriter", KernFeatureWriter), ("kernFeatureWriter2", KernFeatureWriter2)][(i // len(VARIANTS)) % 2]
+        lib = ["ufoLib2", "defcon"][(i // (2 * len(VARIANTS))) % 2]
+        glyphs = [{"name": "A", "unicodes": [0x41], "width": 500, "contours": tri, "components": [], "anchors": [("top", Fr(250), Fr(700))]},
+                  {"name": "V", "unicodes": [0x56], "width": 500, "contours": tri, "components": [], "anchors": []},
+                  {"name": "f_i", "unicodes": [0xFB01], "width": 600, "contours": tri, "components": [], "anchors": []},
+                  {"name": "acutecomb", "unicodes": [0x301], "width": 0, "contours": tri, "components": [], "anchors": [("_top", Fr(0), Fr(480))]}]
+        desc = {"glyphs": glyphs, "glyphOrder": [g["name"] for g in glyphs], "groups": {}, "features": "languagesystem DFLT dflt;\n" + fea,
+                "kerning": {("A", "acutecomb"): Fr(-77), ("A", "V"): Fr(-40), ("acutecomb", "V"): Fr(13)}, "lib": {"public.openTypeCategories": cats} if cats else {}}
+        case = {"font": jsonable({k: (v if k != "kerning" else {"%s|%s" % kk: vv for kk, vv in v.items()}) for k, v in desc.items()}),
+                "lib": lib, "writer": wname, "marks_declared": label}
+        ctx.count(); ctx.klass("kerning against a mark, marks declared: %s/%s" % (label, wname)); ctx.nontriv(("mk", i, ctx.scale))
+        try:
+            tt = ufo2ft.compileTTF(build_font(desc, lib), useProductionNames=False,
+                                   featureWriters=[CursFeatureWriter, wcls, MarkFeatureWriter, GdefFeatureWriter])
+            b = io.BytesIO(); tt.save(b); lay = Layout(TTFont(io.BytesIO(b.getvalue())))
+        except Exception as e:
+            ctx.spec_failure(case, "compileTTF raised %s: %s\n%s" % (type(e).__name__, e, traceback.format_exc()[-1000:]))
+            continue
+        lk = lay.lookups_for("DFLT", {"kern"})
+        for (a, c), v in desc["kerning"].items():
+            got = lay.pair_adjust(lk, a, c)[0]
+            if got != int(v):
+                ctx.spec_failure(dict(case, pair=[a, c]), "the pair (%s, %s) is adjusted by %r, the UFO says %r (marks declared: %s)" % (a, c, got, int(v), label),
+                                 signature=F41_SIG if label == "declared nowhere" and "acutecomb" in (a, c) else None)
+
+
 def explore(ctx):
     merge_scripts_section(ctx)
+    mark_kern_section(ctx)
     declared_script_section(ctx)
     variable_kern_section(ctx)
     # the bidi classification of glyphs (cmap + GSUB closure with the neutral glyphs taken out + designspace-rule
